@@ -1,4 +1,5 @@
 pub mod common;
+pub mod c01;
 pub mod c02;
 pub mod c03;
 pub mod c04;
@@ -6,10 +7,11 @@ pub mod c06;
 pub mod c07;
 pub mod c08;
 pub mod c12;
+pub mod c14;
 pub mod streamconf;
 
 use crate::engine::CheckDef;
 
 pub fn all() -> Vec<CheckDef> {
-    vec![c02::def(), c03::def(), c04::def(), c06::def(), c07::def(), c08::def(), c12::def()]
+    vec![c01::def(), c02::def(), c03::def(), c04::def(), c06::def(), c07::def(), c08::def(), c12::def(), c14::def()]
 }
